@@ -42,6 +42,36 @@ Theorem C14_interleaving_independent_until_eviction : forall cond w ops1 ops2,
 Proof. exact interleaving_indep_until_eviction. Qed.
 Print Assumptions C14_interleaving_independent_until_eviction.
 
+(** StreamJoinManager (Model/JoinMgr.v, Proofs/JoinMgrProofs.v): joins registered under different ids, each over two different
+    streams; then ANY traffic - events of any streams (also streams nobody consumes, and streams consumed by several joins) and
+    watermarks, in any order.  The pairs handed to the handler of a join are exactly what its node emits on the join's own
+    projection of the traffic: every event of its left stream once as a left event, every event of its right stream once as a
+    right event, every watermark of either stream once, nothing else, in order.  With the exactness theorem above: until
+    something is evicted, each handler receives exactly the reference join of the events of its two streams. *)
+From RRE Require Import Model.JoinMgr Proofs.JoinMgrProofs.
+Theorem C14_manager_delivers_projection : forall regs evs,
+  NoDup (map (fun g => j_id (regjoin g)) regs) -> Forall reg_ok regs -> Forall is_traffic evs ->
+  forall g, In g regs ->
+  let j := regjoin g in
+  delivered (j_id j) (mrun minit (map regop regs ++ evs)) =
+  concat (run_from (cond_of (j_kind j)) (j_w j) init (flat_map (jproj j) evs)).
+Proof. exact manager_from_empty. Qed.
+Print Assumptions C14_manager_delivers_projection.
+
+Theorem C14_manager_join_exact_until_eviction : forall regs evs,
+  NoDup (map (fun g => j_id (regjoin g)) regs) -> Forall reg_ok regs -> Forall is_traffic evs ->
+  forall g, In g regs ->
+  let j := regjoin g in
+  let ops := flat_map (jproj j) evs in
+  may_evict (j_w j) [] ops = false ->
+  Permutation (delivered (j_id j) (mrun minit (map regop regs ++ evs)))
+              (ref_join (cond_of (j_kind j)) (j_w j) (lefts ops) (rights ops)).
+Proof.
+  intros regs evs ND OK T g Hg j ops Hev. unfold j. rewrite (manager_from_empty regs evs ND OK T g Hg).
+  apply inner_join_exact_until_eviction. exact Hev.
+Qed.
+Print Assumptions C14_manager_join_exact_until_eviction.
+
 (** non-vacuity: two keys, a keyless event, window 2, condition on attributes *)
 Example C14_example :
   let l i t k a := OLeft {| eid := i; ets := t; ekey := k; eattr := a |} in
